@@ -41,6 +41,19 @@ pub enum Op {
 	/// `push_serialized` of values pre-serialized by the reference encoder
 	PushRef { vals: Vec<Val>, layout: Layout },
 	FinishBlock,
+	/// compact form of a LONG history (expanded by `FileSpec::expanded` before anything runs): `n` small values drawn
+	/// from `seed`, each through `serialize` (every `push_every`-th through `push_serialized`; every `poison_every`-th
+	/// fails half-way), with a `finish_block` after every `finish_every` values (0 = never for each)
+	Many {
+		seed: u64,
+		n: u32,
+		finish_every: u32,
+		push_every: u32,
+		poison_every: u32,
+		/// size pattern of the strings / bytes over the history (`val::gen_long_vals`)
+		#[serde(default)]
+		pattern: u8,
+	},
 }
 
 /// probes: which large-scale features the values of a workload have
@@ -63,6 +76,12 @@ pub fn count_scale(spec: &FileSpec, out: &mut crate::runner::Outcome) {
 				}
 			}
 			Op::FinishBlock => {}
+			Op::Many { n, .. } => {
+				classes.push("long_history");
+				if *n > 65_535 {
+					classes.push("long_history_above_65535_values");
+				}
+			}
 		}
 	}
 	classes.sort_unstable();
@@ -95,6 +114,43 @@ pub struct FileSpec {
 	/// are then run-dependent and stay out of digests; sizes and positions are not)
 	#[serde(default)]
 	pub via_write_all: bool,
+}
+
+impl FileSpec {
+	/// the spec with every `Op::Many` replaced by the individual calls it stands for (a pure function of the spec)
+	pub fn expanded(&self) -> std::borrow::Cow<'_, FileSpec> {
+		if !self.ops.iter().any(|o| matches!(o, Op::Many { .. })) {
+			return std::borrow::Cow::Borrowed(self);
+		}
+		let env = Env::build(&self.schema);
+		let mut ops = vec![];
+		for op in &self.ops {
+			match op {
+				Op::Many { seed, n, finish_every, push_every, poison_every, pattern } => {
+					let mut r = Rng::from_seed(*seed ^ 0x5bd1_e995);
+					let vals = val::gen_long_vals(*seed, &env, &self.schema, *n, *pattern);
+					for (i, v) in vals.into_iter().enumerate() {
+						let i = i as u32;
+						if *push_every > 0 && i % push_every == push_every - 1 {
+							ops.push(Op::PushCrate { vals: vec![v] });
+						} else {
+							let poison = if *poison_every > 0 && i % poison_every == poison_every - 1 {
+								Some(Poison { at_call: r.usize(6), kind: *r.pick(&[PoisonKind::Err, PoisonKind::WrongType]) })
+							} else {
+								None
+							};
+							ops.push(Op::Serialize { val: v, pres: PresCfg::plain(), poison });
+						}
+						if *finish_every > 0 && (i + 1) % finish_every == 0 {
+							ops.push(Op::FinishBlock);
+						}
+					}
+				}
+				other => ops.push(other.clone()),
+			}
+		}
+		std::borrow::Cow::Owned(FileSpec { ops, ..self.clone() })
+	}
 }
 
 pub fn blob(len: u32, seed: u64, compressible: bool) -> Vec<u8> {
@@ -335,6 +391,7 @@ pub fn run_writer(spec: &FileSpec, sink: &SimSink, mut observe: impl FnMut(&Step
 				Ok(Err(e)) => (Err(e.to_string()), None, vec![]),
 				Err(p) => (Err("panic".into()), Some(p), vec![]),
 			},
+			Op::Many { .. } => (Err("HARNESS: Op::Many reached run_writer unexpanded".into()), None, vec![]),
 		};
 		run.model.extend(added);
 		let was_panic = panicked.is_some();
@@ -957,6 +1014,90 @@ pub fn gen_filespec(rng: &mut Rng, p: &SpecProfile) -> FileSpec {
 		approx_block_size,
 		sync: gen_sync(rng),
 		user_meta: gen_user_meta(rng),
+		ops,
+		end: if rng.bool() { End::IntoInner } else { End::Drop },
+		owned_config: rng.chance(1, 4),
+		via_write_all: false,
+	}
+}
+
+/// A LONG history over a small schema: hundreds of blocks, or one block of more than 65 535 objects, or a long
+/// alternation of values, failing values, pushes and flushes. What a dozen operations cannot reach: counters that
+/// wrap or are narrowed, running totals that drift, buffers that are recycled, capped or shrunk after N uses.
+/// `max_n` bounds the number of values (checks that enumerate schedules per workload pass a lower one).
+pub fn gen_long_spec(rng: &mut Rng, p: &SpecProfile, max_n: u32) -> FileSpec {
+	let mut schema = match rng.below(12) {
+		0 if !p.min_width_one => Ty::Null,
+		1 => Ty::Int,
+		2 => Ty::Long,
+		3 => Ty::String,
+		4 => Ty::Bytes,
+		5 => Ty::Boolean,
+		6 => Ty::Record { name: 0, fields: vec![(0, Ty::Int), (1, Ty::String)] },
+		7 => Ty::Union(vec![Ty::Null, Ty::String]),
+		8 if !p.min_width_one => Ty::Record { name: 1, fields: vec![] },
+		9 => Ty::Array(Box::new(Ty::Int)),
+		_ => gen_schema_for(rng, p),
+	};
+	let huge_block = max_n > 70_000 && rng.chance(1, 4);
+	if huge_block {
+		// more than 65 535 objects in ONE block: tiny values only
+		schema = match rng.below(5) {
+			0 if !p.min_width_one => Ty::Null,
+			1 => Ty::Boolean,
+			2 => Ty::Long,
+			3 if !p.min_width_one => Ty::Record { name: 1, fields: vec![] },
+			_ => Ty::Int,
+		};
+	}
+	let n = if huge_block {
+		let span = *rng.pick(&[40u64, 3_000, 70_000]);
+		65_530 + rng.below(span) as u32
+	} else {
+		match rng.below(4) {
+			0 => 250 + rng.below(20) as u32,
+			1 => 257 + rng.below(300) as u32,
+			2 => 1_000 + rng.below(100) as u32,
+			_ => 300 + rng.below(900) as u32,
+		}
+		.min(max_n)
+	};
+	let (finish_every, approx_block_size) = if huge_block {
+		(0, 16 * 1024 * 1024)
+	} else {
+		match rng.below(6) {
+			// a block per value
+			0 => (0, 0),
+			1 => (1, 64 * 1024),
+			2 => (0, 1 + rng.below(8) as u32),
+			// a block every few values
+			3 => (2 + rng.below(6) as u32, 64 * 1024),
+			4 => (0, 16 + rng.below(100) as u32),
+			// few blocks, many values each
+			_ => (100 + rng.below(200) as u32, 64 * 1024),
+		}
+	};
+	// many blocks through bzip2 / xz cost a stream set-up each: cheap codecs mostly
+	let codec = if huge_block || !p.heavy_codecs || rng.chance(9, 10) { gen_codec(rng, false) } else { *rng.pick(&[Codec::Bzip2(1), Codec::Xz(1), Codec::Bzip2(0), Codec::Xz(0)]) };
+	let n = if matches!(codec, Codec::Bzip2(_) | Codec::Xz(_)) { n.min(300) } else { n };
+	let mut ops = vec![];
+	if rng.chance(1, 3) {
+		ops.push(Op::FinishBlock);
+	}
+	ops.push(Op::Many {
+		seed: rng.next_u64(),
+		n,
+		finish_every,
+		push_every: if p.push_ops && !huge_block && rng.chance(1, 3) { 2 + rng.below(9) as u32 } else { 0 },
+		poison_every: if p.poison && !huge_block && rng.chance(1, 2) { 2 + rng.below(40) as u32 } else { 0 },
+		pattern: if huge_block { 0 } else { rng.below(7) as u8 },
+	});
+	FileSpec {
+		schema,
+		codec,
+		approx_block_size,
+		sync: gen_sync(rng),
+		user_meta: vec![],
 		ops,
 		end: if rng.bool() { End::IntoInner } else { End::Drop },
 		owned_config: rng.chance(1, 4),
